@@ -175,6 +175,7 @@ def check(ctx):
         ctx.violation('R10-hash-covers-text', fi, 'cookie hash', 'no text is fed to the hash: every declaration gets the same cookie', fi.node.lineno, clause='H')
 
     check_templates_closed(ctx, repo)
+    check_module_namespace(ctx, model)
     ctx.floor('paths of generate_code', len(model.paths), 8)
     ctx.floor('text operands of the cache module', nw, 3)
     ctx.floor('install provenances', r['installs'], 2)
@@ -182,6 +183,42 @@ def check(ctx):
 
 
 _TEMPLATES = []
+
+
+MODULE_DUNDERS = ('__file__', '__name__', '__package__', '__loader__', '__spec__', '__cached__', '__path__', '__builtins__')
+
+
+def check_module_namespace(ctx, model=None, rule='R10-generated-code-closed'):
+    """the namespace of the generated module holds what its text defines and nothing else: the
+    module object is shared, through sys.modules, by every same-named class with the same text,
+    so an object of *this* class parked there (a field table, the class itself) is replaced by the
+    next definition under the functions already installed in earlier classes"""
+    from ..cache import CacheModel
+    repo = ctx.repo
+    model = model or CacheModel(repo, max_paths=max(ctx.max_paths, 65536))
+    fi = model.fi
+    seen = set()
+    for p in model.paths:
+        for e in p.all_effects():
+            tgt = name = None
+            if e.kind == 'store_attr' and model.sym(e.obj) and model.kind(e.obj) in ('load', 'mem'):
+                tgt, name = e.obj, e.name
+            elif e.kind == 'setattr' and model.sym(e.obj) and model.kind(e.obj) in ('load', 'mem'):
+                tgt, name = e.obj, (e.name.value if isinstance(e.name, ast.Constant) else canon(e.name))
+            elif e.kind == 'store_sub':
+                o = e.obj
+                inner = o.value if isinstance(o, ast.Attribute) and o.attr == '__dict__' else (o.args[0] if isinstance(o, ast.Call) and call_name(o) == 'vars' and o.args else None)
+                if inner is not None and model.sym(inner) and model.kind(inner) in ('load', 'mem'):
+                    tgt, name = inner, (e.name.value if isinstance(e.name, ast.Constant) else canon(e.name))
+            if tgt is None or name in MODULE_DUNDERS:
+                continue
+            st = stmt_text(e.node)[:120]
+            if st in seen:
+                continue
+            seen.add(st)
+            ctx.violation(rule, fi, st, 'an object of this class is stored in the namespace of the generated module: same-named classes with the same generated text share that module, the next definition replaces the object under the functions already installed in the earlier class', e.lineno, clause='E', witness=True)
+    if not seen:
+        ctx.holds(rule, fi, 'nothing but module attributes (__file__ ...) is stored into the generated module', 'its namespace is exactly what its text defines', fi.node.lineno, clause='E')
 
 
 def module_level_kind(op):
